@@ -434,8 +434,9 @@ def _main(args=None):
         __file__ = setup_file
         __name__ = '__main__'
         # Make sure the script's directory is on sys.path instead of just
-        # kernprof.py's.
-        sys.path.insert(0, os.path.dirname(setup_file))
+        # kernprof.py's (with `-m`, behind the current directory, which
+        # has to stay first as with `python -m`).
+        sys.path.insert(1 if module else 0, os.path.dirname(setup_file))
         ns = locals()
         execfile(setup_file, ns, ns)
 
